@@ -151,7 +151,7 @@ def convert(input_image_stream, output_image_stream):
     out.write(strtoio("P6\n{} {}\n255\n".format(cols, rows)))
     y = 160 * rows
     if not packed:
-        while True:
+        while y > 0:
             b = ord(iotostr(f.read(1)))
             if b == 0:
                 break
@@ -161,6 +161,9 @@ def convert(input_image_stream, output_image_stream):
                 y = y - 1
                 if y <= 0:
                     break
+        if y > 0:
+            debug("image data ends before the picture is complete")
+            sys.exit(1)
     else:
         for jj in range(y):
             dump(ord(iotostr(f.read(1))))
